@@ -91,6 +91,17 @@ pub struct PORT_REGISTER_STACK_ENTRY {
     Size: libc::size_t,
 }
 
+/// Validates a caller supplied (pointer, size) pair before a slice is built from it.
+/// A NULL pointer or a size above `isize::MAX` cannot describe a buffer; building a slice from
+/// them is undefined behaviour (and aborts the process when debug assertions are enabled).
+fn check_buffer<T>(ptr: *const T, size: libc::size_t) -> GenTlResult<()> {
+    if ptr.is_null() || size > isize::MAX as usize {
+        Err(GenTlError::InvalidParameter)
+    } else {
+        Ok(())
+    }
+}
+
 fn file_location_to_url(xml_info: &imp::port::XmlInfo, port_info: &imp::port::PortInfo) -> String {
     use imp::port::XmlLocation;
     match &xml_info.location {
@@ -377,6 +388,7 @@ gentl_api! {
         piSize: *mut libc::size_t,
     ) -> GenTlResult<()> {
         unsafe {
+            check_buffer(pBuffer, *piSize)?;
             let handle = ModuleHandle::from_raw_manually_drop(hPort)?;
             let buffer = std::slice::from_raw_parts_mut(pBuffer.cast::<u8>(), *piSize);
 
@@ -399,6 +411,7 @@ gentl_api! {
         piSize: *mut libc::size_t,
     ) -> GenTlResult<()> {
         unsafe {
+            check_buffer(pBuffer, *piSize)?;
             let handle = ModuleHandle::from_raw_manually_drop(hPort)?;
             let data = std::slice::from_raw_parts(pBuffer.cast::<u8>(), *piSize);
 
@@ -419,6 +432,10 @@ gentl_api! {
         piNumEntries: *mut libc::size_t,
     ) -> GenTlResult<()> {
         unsafe {
+            for i in 0..*piNumEntries {
+                let raw_ent = *pEntries.add(i);
+                check_buffer(raw_ent.pBuffer, raw_ent.Size)?;
+            }
             let handle = ModuleHandle::from_raw_manually_drop(hPort)?;
 
             let mut entries: Vec<_> = (0..*piNumEntries)
@@ -445,6 +462,10 @@ gentl_api! {
         piNumEntries: *mut libc::size_t,
     ) -> GenTlResult<()> {
         unsafe {
+            for i in 0..*piNumEntries {
+                let raw_ent = *pEntries.add(i);
+                check_buffer(raw_ent.pBuffer, raw_ent.Size)?;
+            }
             let handle = ModuleHandle::from_raw_manually_drop(hPort)?;
 
             let entries: Vec<_> = (0..*piNumEntries)
